@@ -63,6 +63,8 @@ LAYOUTS = {
     "overlap": [("D", [0, 3], ["x"], "array"), ("D", [0], ["y", "x"], "const"), ("D", [3], ["y"], "func"), ("N", [2], ["x", "y"], "const")],
     "duplicated": [("D", [0], ["x"], "const"), ("D", [0], ["x"], "const"), ("D", [0, 3], ["x", "y"], "func"), ("D", [0], ["x"], "array"), ("S", [1, 2], ["x"], "const")],
     "reordered": [("S", [1, 2], ["y"], "poly"), ("N", [2], ["x"], "const"), ("D", [3], ["y"], "const"), ("D", [0], ["x", "y"], "const")],
+    # exactly ONE Dirichlet condition, with non-zero values (a function of position over several nodes)
+    "single": [("D", [0, 3], ["x", "y"], "func"), ("N", [2], ["x"], "const")],
 }
 LAYOUTS_T = {
     "thermal": [("D", [0], ["t"], "const"), ("D", [0, 3], ["t"], "array"), ("N", [2], ["t"], "const"), ("S", [1, 2], ["t"], "poly")],
@@ -141,6 +143,12 @@ def job_layout(cfg):
             simu._Simu__Solver_Set_Newton_Raphson_current_solution(u0.copy())
             delta, _ = Solvers.Solve_simu(simu, pt)
             u = u0 + delta
+            # the entered conditions are data: a solve leaves them as they were entered, and solving again from the state just reached
+            # prescribes the same values
+            stored = (np.asarray(simu.Bc_dofs_Dirichlet(pt)).copy(), np.asarray(simu.Bc_values_Dirichlet(pt), dtype=object).copy())
+            simu._Simu__Solver_Set_Newton_Raphson_current_solution(np.asarray(u, dtype=object).copy())
+            delta2, _ = Solvers.Solve_simu(simu, pt)
+            u_again = np.asarray(u, dtype=object) + delta2
         else:
             u, _ = Solvers.Solve_simu(simu, pt)
         Fvec = simu.Bc_vector_Neumann(pt)
@@ -164,6 +172,15 @@ def job_layout(cfg):
     for d, want in sorted(expected.items()):
         res.record(f"{key} u[{d}] = sum of entered values", prove_abs_le(u[d] - want, 0, pcs, key), lambda env: _replay_layout(cfg, layout, env, c), key=f"{key} constrained dof",
                    sample=None if d != sorted(expected)[0] else {"config": key, "obligation": f"u[{d}] == {want!r} for all prescribed values and loads", "entries_for_this_dof": "see layout"})
+    if cfg.get("newton"):
+        agg = {}
+        for d, val in zip(stored[0], stored[1]):
+            agg[int(d)] = agg.get(int(d), 0) + val
+        for d, want in sorted(expected.items()):
+            res.record(f"{key} stored Dirichlet value of dof {d} after the solve = the entered value", prove_abs_le(as_sym(agg.get(d, 0)) - want, 0, pcs, key), lambda env: _replay_layout(cfg, layout, env, c),
+                       key=f"{key} stored conditions unchanged by a solve")
+            res.record(f"{key} second solve from the reached state: u[{d}] = entered value", prove_abs_le(as_sym(u_again[d]) - want, 0, pcs, key), lambda env: _replay_layout(cfg, layout, env, c),
+                       key=f"{key} constrained dof (second solve)")
     # (2) free dofs satisfy the assembled equations with the applied loads
     n = mesh.Nn * dof_n
     F = np.asarray(Fvec, dtype=object).reshape(-1)
@@ -307,6 +324,15 @@ def _replay_layout(cfg, layout, env, c, r2=False, return_simu=False):
         delta, _ = Solvers.Solve_simu(s2, pt)
         u = u0 + delta
         base = u - u0
+        agg = {}
+        for d, val in zip(np.asarray(s2.Bc_dofs_Dirichlet(pt)), np.asarray(s2.Bc_values_Dirichlet(pt), dtype=float)):
+            agg[int(d)] = agg.get(int(d), 0.0) + float(val)
+        err_stored = max(abs(agg.get(d, 0.0) - w) for d, w in expected.items())
+        s2._Simu__Solver_Set_Newton_Raphson_current_solution(np.asarray(u, dtype=float).copy())
+        delta2, _ = Solvers.Solve_simu(s2, pt)
+        err_again = max(abs((u + delta2)[d] - w) for d, w in expected.items())
+        if err_stored > 1e-9 or err_again > 1e-9:
+            return True, {"stored_Dirichlet_values_moved_by": float(err_stored), "constrained_dofs_after_a_second_solve_off_by": float(err_again)}
     else:
         if r2:
             u, _ = getattr(Solvers, "__Solver_2")(s2, pt)
@@ -529,6 +555,8 @@ def main():
     configs.append({"sim": "thermal", "layout": "thermal"})
     configs.append({"sim": "thermal", "layout": "thermal", "orphan": True})
     configs.append({"sim": "elastic", "layout": "disjoint", "newton": True})
+    configs.append({"sim": "elastic", "layout": "single", "newton": True})
+    configs.append({"sim": "nonsym", "layout": "single", "newton": True})
     configs.append({"sim": "elastic", "layout": "duplicated", "newton": True, "orphan": True})
     configs.append({"connection": True})
     for sv in ("scipy", "cg", "bicg", "gmres", "lgmres", "lsq_linear"):
